@@ -19,10 +19,14 @@ ASSUMPTIONS = [
 ]
 
 DIFF_ENCS = [None, None, 'utf-8', 'latin-1', 'utf-16', 'utf-16-le',
-             'utf-32-be', 'cp037']
+             'utf-32-be', 'cp037', 'utf-32', 'utf-8-sig', 'UTF8']
+EXPLICIT_BOM = {'utf-8': b'\xef\xbb\xbf', 'UTF8': b'\xef\xbb\xbf',
+                'utf-16-le': b'\xff\xfe', 'utf-32-be': b'\x00\x00\xfe\xff'}
 SAFE_PAYLOADS = [b'', b'x', b'line of text', b'-- a/file', b'++ b/file',
                  b'@@ -1 +1 @@', b' leading space', b'+', b'-',
-                 b'\\ No newline at end of file', b'#.change:', b'tail ']
+                 b'\\ No newline at end of file', b'#.change:', b'tail ',
+                 b'form\x0cfeed', b'vt\x0bx', b'fs\x1cx', b'lone\rcr',
+                 b'y' * 1500]
 
 
 @hs.composite
@@ -64,6 +68,14 @@ def file_desc(draw):
         f['encoding'] = draw(hs.sampled_from(DIFF_ENCS))
         f['final_newline'] = draw(hs.integers(0, 3)) != 0
         f['declare_type'] = draw(hs.booleans())
+        # an explicit byte order mark in front of a codec that does not
+        # write one itself
+        f['explicit_bom'] = draw(hs.integers(0, 3)) == 0
+
+        if draw(hs.integers(0, 7)) == 0:
+            # a long first line (before the first hunk)
+            n = draw(hs.sampled_from([1022, 1023, 1024, 4095, 4096, 8192]))
+            d['pre'] = [b'L' * n] + d['pre']
 
     return f
 
@@ -76,7 +88,12 @@ def render_lines(lines, f, force_final=False):
     if (f['final_newline'] or force_final) and lines:
         text += nl
 
-    return text.encode(f['encoding'] or 'ascii')
+    data = text.encode(f['encoding'] or 'ascii')
+
+    if f.get('explicit_bom') and f['encoding'] in EXPLICIT_BOM and lines:
+        data = EXPLICIT_BOM[f['encoding']] + data
+
+    return data
 
 
 def diff_bytes(f):
@@ -190,7 +207,7 @@ def run_case(case, st):
     nfiles = sum(len(c['files']) for c in case['changes'])
     analysed = sum(1 for fe in expect for a in fe if a is not None)
     multibyte = any(f.get('encoding') in ('utf-16', 'utf-16-le', 'utf-32-be',
-                                          'cp037')
+                                          'cp037', 'utf-32')
                     for c in case['changes'] for f in c['files']
                     if f['kind'] == 'text')
     st.case(case, nontrivial=analysed >= 2 or (analysed >= 1 and multibyte),
